@@ -67,7 +67,7 @@ def statements(src):
     """{name: normalised statement} for every Theorem / Example in a property file"""
     code = strip_comments(src)
     res = {}
-    for m in re.finditer(r"^(Theorem|Example|Lemma|Corollary)\s+(\w+)(.*?)^Proof\b", code, re.M | re.S):
+    for m in re.finditer(r"^[ \t]*(Theorem|Example|Lemma|Corollary)\s+(\w+)(.*?)^[ \t]*Proof\b", code, re.M | re.S):
         res[m.group(2)] = (m.group(1), re.sub(r"\s+", " ", m.group(3)).strip())
     return res
 
@@ -124,7 +124,7 @@ def check_proofs(pid, tier):
     closed = out.count("Closed under the global context")
     ax_blocks = re.findall(r"Axioms:\n((?:.+\n?)+?)(?=\n\S|\Z)", out)
     bad_ax = [a for blk in ax_blocks for a in re.findall(r"^(\S+)\s*:", blk, re.M) if a not in AXIOM_ALLOW]
-    npa = len(re.findall(r"^Print Assumptions\s+(\w+)", strip_comments(src), re.M))
+    npa = len(re.findall(r"\bPrint Assumptions\s+(\w+)", strip_comments(src)))
     discharged = 0
     why = []
     if r.returncode != 0:
@@ -209,8 +209,11 @@ def build_harness(cfg):
         if not os.path.exists(mp) or open(mp).read() != man:
             open(mp, "w").write(man)
         lk = os.path.join(bd, "Cargo.lock")
+        def lock_src():
+            p = os.path.join(REPO, "Cargo.lock")      # not tracked by the repository: a scratch worktree has none
+            return p if os.path.exists(p) else os.path.join(ROOT, "harness", "Cargo.lock.ref")
         if not os.path.exists(lk):
-            shutil.copy(os.path.join(REPO, "Cargo.lock"), lk)
+            shutil.copy(lock_src(), lk)
         sp = os.path.join(bd, "src")
         if os.path.islink(sp) or os.path.exists(sp):
             if not (os.path.islink(sp) and os.readlink(sp) == os.path.join(ROOT, "harness", "src")):
@@ -224,7 +227,7 @@ def build_harness(cfg):
         r = sh(f"cd {bd} && CARGO_NET_OFFLINE=true timeout 2400 cargo build -q --release --offline {feat} --target-dir {tgt} 2>&1", timeout=2500)
         if r.returncode != 0:
             if "Cargo.lock" in r.stdout or "lock file" in r.stdout:
-                shutil.copy(os.path.join(REPO, "Cargo.lock"), lk)
+                shutil.copy(lock_src(), lk)
                 r = sh(f"cd {bd} && CARGO_NET_OFFLINE=true timeout 2400 cargo build -q --release --offline {feat} --target-dir {tgt} 2>&1", timeout=2500)
         if r.returncode != 0:
             return None, r.stdout[-3000:]
